@@ -76,7 +76,7 @@ def splitArrow : List Nat → List (List Nat)
       | p :: ps => (x :: p) :: ps
 
 inductive SanErr | notImplemented | value
-deriving Repr, BEq
+deriving Repr, BEq, DecidableEq
 
 /-- `_sanitize_equation(eq)`: `(lhs, out)`; the implicit output is the sorted sequence of the
     symbols occurring exactly once. -/
@@ -96,7 +96,7 @@ structure SinglePlan where
   diag : Option (List (List (Option Nat)))
   sumAxes : Option (List Nat)
   perm : Option (List Nat)
-deriving Repr, BEq
+deriving Repr, BEq, DecidableEq
 
 /-- first loop: `(need_to_diag, need_to_sum, seen)` -/
 def scanStep (out : List Ix) (st : List Ix × List Ix × List Ix) (ix : Ix) :
@@ -164,7 +164,7 @@ inductive Prep where
   | none
   | perm (p : List Nat)
   | eins (term desired : List Ix)
-deriving Repr, BEq
+deriving Repr, BEq, DecidableEq
 
 structure Plan where
   eqA : Prep
@@ -174,7 +174,7 @@ structure Plan where
   shAB : Option (List Nat)
   permAB : Option (List Nat)
   pure : Bool
-deriving Repr, BEq
+deriving Repr, BEq, DecidableEq
 
 /-- labels of the axes whose dimension is not 1, in order (the loop `continue`s on `d == 1`) -/
 def nontriv (t : List Ix) (sh : List Nat) : List Ix :=
@@ -204,7 +204,7 @@ structure Groups where
   con : List Ix
   aKeep : List Ix
   bKeep : List Ix
-deriving Repr, BEq
+deriving Repr, BEq, DecidableEq
 
 /-- the classification loops (`seen` makes the body run once per distinct non-trivial label, in
     first-occurrence order) -/
@@ -292,7 +292,7 @@ def niceInd (i : Nat) : Nat :=
 inductive Axes where
   | num (n : Nat)
   | pair (a b : List Nat)
-deriving Repr, BEq
+deriving Repr, BEq, DecidableEq
 
 /-- the loop over `range(ndim_b)`: `(inds_b, inds_out, next fresh symbol)`; `none` = `ValueError`
     (dimension mismatch) -/
